@@ -14,7 +14,7 @@ use serde_json::{json, Value};
 use solstat::analyzer::utils::get_line_number;
 use std::collections::BTreeSet;
 
-const ALPHA: [&str; 5] = ["a", "\n", "\r", "\u{e9}", " "];
+const ALPHA: [&str; 6] = ["a", "\n", "\r", "\u{e9}", " ", "\u{2028}"];
 
 fn conv_case(check: &str, text: &str, off: usize, st: &mut Stats) -> Vec<Violation> {
     let expected = line_of(text, off);
@@ -60,8 +60,8 @@ fn token_starts(text: &str) -> Vec<usize> {
 fn nth_string(mut i: u64, len: usize) -> String {
     let mut s = String::new();
     for _ in 0..len {
-        s.push_str(ALPHA[(i % 5) as usize]);
-        i /= 5;
+        s.push_str(ALPHA[(i % 6) as usize]);
+        i /= 6;
     }
     s
 }
@@ -224,16 +224,16 @@ pub fn run(env: &Env) -> i32 {
         st.violations.extend(vs);
     }
     // (a.i) bounded-exhaustive: all strings of length <= 7 over {a, LF, CR, e-acute, blank}
-    let maxlen = env.tier.n(7, 9) as usize;
+    let maxlen = env.tier.n(6, 8) as usize;
     let mut total: u64 = 0;
     for len in 0..=maxlen {
-        total += 5u64.pow(len as u32);
+        total += 6u64.pow(len as u32);
     }
     let mut starts = Vec::new();
     let mut acc = 0u64;
     for len in 0..=maxlen {
         starts.push(acc);
-        acc += 5u64.pow(len as u32);
+        acc += 6u64.pow(len as u32);
     }
     enum_stream(env, &mut st, total, |i, s| {
         let len = (0..=maxlen).rev().find(|l| starts[*l] <= i).unwrap();
@@ -262,6 +262,8 @@ pub fn run(env: &Env) -> i32 {
         1 => proptest::strategy::Just("\n\n\n".to_string()),
         1 => proptest::string::string_regex("\\PC{1,6}").unwrap(),
         1 => proptest::strategy::Just("\u{1f600}\u{e9}\u{4e16}".to_string()),
+        1 => proptest::strategy::Just("\u{2028}".to_string()),
+        1 => proptest::strategy::Just("\u{2029}x\u{85}y\u{0b}z\u{0c}".to_string()),
     ];
     proptest::collection::vec(piece, 0..120)
     };
@@ -285,12 +287,12 @@ pub fn run(env: &Env) -> i32 {
     tape_stream(env, &mut st, "e2e", env.tier.n(3000, 30_000), 1200, |tape, s| e2e_case(tape, &cfg, s));
 
     let meta = Meta {
-        rule: "(a) (text, offset) pairs: all strings of length <= 7 (quick) / 9 (thorough) over {a, LF, CR, e-acute (2 bytes), blank} with every offset at which a non-blank character starts, plus random Unicode texts with LF / CRLF / lone CR / blank runs; (b) (laid-out program, pattern) pairs for 4 fixed and 2 random layouts and all 30 patterns; non-trivial = offset or finding on the last line of a text without final newline, after a multi-byte character, after a CRLF, or a finding spanning several lines; distinct by (text, offset) resp. (text, pattern)".into(),
+        rule: "(a) (text, offset) pairs: all strings of length <= 6 (quick) / 8 (thorough) over {a, LF, CR, e-acute (2 bytes), blank, U+2028 LINE SEPARATOR (3 bytes, not a line feed)} with every offset at which a non-blank character starts, plus random Unicode texts with LF / CRLF / lone CR / blank runs; (b) (laid-out program, pattern) pairs for 4 fixed and 2 random layouts and all 30 patterns; non-trivial = offset or finding on the last line of a text without final newline, after a multi-byte character, after a CRLF, or a finding spanning several lines; distinct by (text, offset) resp. (text, pattern)".into(),
         assumptions: vec![
             "line model: line(text, off) = 1 + number of LF bytes before off (from the property statement)".into(),
             "which location a detector must choose is enforced by C05-C08 in the one-token-per-line layout; here the loc-set -> line-set step is checked".into(),
         ],
-        extra: json!({"exhaustive_subdomains": [format!("all {} strings of length <= {} over a 5-symbol alphabet, every non-blank offset", total, maxlen)]}),
+        extra: json!({"exhaustive_subdomains": [format!("all {} strings of length <= {} over a 6-symbol alphabet, every non-blank offset", total, maxlen)]}),
         floors: vec![
             ("offsets on a last unterminated line".into(), st.counters.get("offset_on_last_unterminated_line").copied().unwrap_or(0), 1000),
             ("offsets after a multi-byte character".into(), st.counters.get("offset_after_multibyte_char").copied().unwrap_or(0), 1000),
